@@ -5,11 +5,18 @@
 //! workload shape) or from the simulator (Miri: entropy, thread schedule,
 //! memory model, clock, addresses — all derived from `-Zmiri-seed`).
 //!
-//! argv: <K> <D> <sizes n1,n2,..> <lut|static|both> <order-seed> <yield 0|1> <main-draws 0|1> [battery 0|1]
+//! argv: <K> <D> <sizes n1,n2,..> <lut|static|both> <order-seed> <yield 0|1> <main-draws 0|1> [battery 0|1] [seq|cyc]
+//!
+//! mode `seq` (default): every thread walks the size list in its own permutation and performs D
+//!   draws per size (and per type) back to back.
+//! mode `cyc`: the size list is a *cycle of typed calls* (`4L,4S,0L,5S`); every thread repeats the
+//!   cycle D times, starting at its own rotation, so draws of different sizes interleave on one
+//!   thread.  The type argument is ignored.
 //!
 //! Output (one `write_all` at the end, hand-encoded; `format!` is slow under Miri):
 //!   C <argv echo>
-//!   D <thread> <L|S> <n> <seq_start> <seq_end> <warn-mask dec> <blocks: 16 hex digits per word, word 0 first, '.'-separated; '-' if none>
+//!   D <thread> <L|S> <n> <seq_start> <seq_end> <warn-mask dec> <blocks: 16 hex digits per word, word 0 first, '.'-separated; '-' if none> <slot> <rep>
+//!     (slot = which call site of the workload made the draw, rep = how many times that site had run before)
 //!   B <thread> <round> <call-id> <digest hex>           (applicability monitor)
 //!   J <thread>                                          (join error: thread died)
 //!   T <virtual elapsed ns>
@@ -47,6 +54,8 @@ struct Rec {
     s1: u64,
     warn: u8,
     blocks: Vec<u64>,
+    slot: u32,
+    rep: u32,
 }
 
 enum Ev {
@@ -65,6 +74,7 @@ struct Cfg {
     yld: bool,
     main_draws: bool,
     battery: bool,
+    cycle: Vec<(u8, usize)>, // non-empty in mode `cyc`
 }
 
 fn splitmix(x: &mut u64) -> u64 {
@@ -126,16 +136,16 @@ fn dyn_random(n: usize) -> (Vec<u64>, usize, usize) {
     (l.blocks().to_vec(), l.num_vars(), l.num_bits())
 }
 
-fn one_draw(typ: u8, n: usize) -> Rec {
+fn one_draw(typ: u8, n: usize, slot: u32, rep: u32) -> Rec {
     let s0 = stamp();
     let r = std::panic::catch_unwind(|| if typ == b'L' { dyn_random(n) } else { static_random(n) });
     let s1 = stamp();
     match r {
         Ok((blocks, nv, nb)) => {
             let warn = well_formed(n, &blocks, nv, nb);
-            Rec { typ, n: n as u8, s0, s1, warn, blocks }
+            Rec { typ, n: n as u8, s0, s1, warn, blocks, slot, rep }
         }
-        Err(_) => Rec { typ, n: n as u8, s0, s1, warn: W_PANIC, blocks: Vec::new() },
+        Err(_) => Rec { typ, n: n as u8, s0, s1, warn: W_PANIC, blocks: Vec::new(), slot, rep },
     }
 }
 
@@ -147,15 +157,34 @@ fn worker(t: usize, cfg: &Cfg) -> Vec<Ev> {
         let j = (splitmix(&mut st) % (i as u64 + 1)) as usize;
         sizes.swap(i, j);
     }
-    let mut out = Vec::with_capacity(2 * cfg.d * sizes.len() + 64);
+    let mut out = Vec::with_capacity(2 * cfg.d * (sizes.len() + cfg.cycle.len()) + 64);
     let mut round = 0u32;
+    if !cfg.cycle.is_empty() {
+        let p = cfg.cycle.len();
+        let rot = (splitmix(&mut st) % p as u64) as usize;
+        for rep in 0..cfg.d {
+            for i in 0..p {
+                let slot = (i + rot) % p;
+                let (typ, n) = cfg.cycle[slot];
+                out.push(Ev::Draw(one_draw(typ, n, slot as u32, rep as u32)));
+            }
+            if cfg.yld {
+                thread::yield_now();
+            }
+            if cfg.battery && rep == 0 {
+                battery::run(t as u64 ^ cfg.order, 0, &mut |id, dg| out.push(Ev::Bat(0, id, dg)));
+            }
+        }
+        return out;
+    }
     for &n in &sizes {
-        for _ in 0..cfg.d {
+        let pos = cfg.sizes.iter().position(|&x| x == n).unwrap_or(0) as u32;
+        for d in 0..cfg.d {
             if cfg.lut {
-                out.push(Ev::Draw(one_draw(b'L', n)));
+                out.push(Ev::Draw(one_draw(b'L', n, 2 * pos, d as u32)));
             }
             if cfg.stat {
-                out.push(Ev::Draw(one_draw(b'S', n)));
+                out.push(Ev::Draw(one_draw(b'S', n, 2 * pos + 1, d as u32)));
             }
             if cfg.yld {
                 thread::yield_now();
@@ -220,6 +249,10 @@ fn encode(buf: &mut Vec<u8>, t: usize, evs: &[Ev]) {
                     }
                     put_hex64(buf, *b);
                 }
+                buf.push(b' ');
+                put_dec(buf, r.slot as u64);
+                buf.push(b' ');
+                put_dec(buf, r.rep as u64);
                 buf.push(b'\n');
             }
             Ev::Bat(round, id, dg) => {
@@ -252,10 +285,24 @@ fn main() {
         usage();
     }
     let p = |s: &str| -> u64 { s.parse().unwrap_or_else(|_| usage()) };
+    let cyc = a.len() > 9 && a[9] == "cyc";
+    let mut cycle = Vec::new();
+    if cyc {
+        for tok in a[3].split(',') {
+            let (num, ty) = tok.split_at(tok.len().saturating_sub(1));
+            let ty = match ty {
+                "L" => b'L',
+                "S" => b'S',
+                _ => usage(),
+            };
+            cycle.push((ty, p(num) as usize));
+        }
+    }
     let cfg = Cfg {
         k: p(&a[1]) as usize,
         d: p(&a[2]) as usize,
-        sizes: a[3].split(',').map(|s| p(s) as usize).collect(),
+        sizes: if cyc { cycle.iter().map(|c| c.1).collect() } else { a[3].split(',').map(|s| p(s) as usize).collect() },
+        cycle,
         lut: a[4] == "lut" || a[4] == "both",
         stat: a[4] == "static" || a[4] == "both",
         order: p(&a[5]),
